@@ -20,7 +20,7 @@ RULE = (
 )
 REQUIRED = ["graphcluster_runs", "batchcluster_runs", "incremental_runs", "order_permutations", "near_miss_pairs_present",
             "relabelled_copies_present", "pregroup_attribute_runs", "template_library_with_gaps_runs",
-            "same_ids_near_miss_present"]
+            "same_ids_near_miss_present", "reclustered_entries_runs", "lib_check_single_matcher_runs", "half_order_near_misses"]
 ASSUMPTIONS = [
     "isomorphism on element (default '*'), charge (default 0), bond order (default 1) — the clusterers' defaults",
     "the pre-grouping attribute supplied by the harness is isomorphism-invariant (sorted element string)",
@@ -38,6 +38,7 @@ def edge_ok(a, b):
 
 
 _pool = []
+STEP_HALF = [0]
 
 
 def pool():
@@ -62,7 +63,10 @@ def near_miss(rng, G, keep_ids=False):
     if rng.random() < 0.5 and H.number_of_edges():
         u, v = rng.choice(list(H.edges))
         o = H[u][v].get("order", 1)
-        H[u][v]["order"] = (o[0] + 1.0, o[1]) if isinstance(o, tuple) else o + 1
+        step = rng.choice([1.0, 0.5])  # 0.5: aromatic vs single/double near misses
+        if step == 0.5:
+            STEP_HALF[0] += 1
+        H[u][v]["order"] = (o[0] + step, o[1]) if isinstance(o, tuple) else o + step
     else:
         v = rng.choice(list(H.nodes))
         H.nodes[v]["charge"] = H.nodes[v].get("charge", 0) + rng.choice([-1, 1])
@@ -208,8 +212,38 @@ def check_multiset(ctx, graphs, tag):
                     ctx.violation("incremental-fresh-class", {**wit, "order": order, "library": lib_idx, "gaps": gaps},
                                   f"item {e['idx']} matches no representative but received class {c} (library classes {sorted(used)}, fresh {fresh})")
                     break
+    # history: the very same entry dicts are clustered a second time inside a different list
+    ents = entries(graphs, list(range(n)), False)
+    half = ents[: max(1, n // 3)]
+    GraphCluster().fit(half, rule_key="gml", attribute_key=None)
+    order2 = list(range(n))
+    rng.shuffle(order2)
+    again = [ents[i] for i in order2]
+    data = GraphCluster().fit(again, rule_key="gml", attribute_key=None)
+    ctx.count("reclustered_entries_runs")
+    if not same_partition([e["class"] for e in data], [want[e["idx"]] for e in data]):
+        ctx.violation("graphcluster-partition", {**wit, "order": order2, "history": "entries clustered before in another list"},
+                      "GraphCluster.fit gives a wrong partition when some entry dicts were clustered before in another list")
+    # secondary entry point with a single caller-supplied matcher: the other one must still be the clusterer's own
+    from operator import eq
+    from networkx.algorithms.isomorphism import generic_node_match, generic_edge_match
+    nm = generic_node_match(["element", "charge"], ["*", 0], [eq, eq])
+    em = generic_edge_match("order", 1, eq)
+    for label, kw in (("nodeMatch only", {"nodeMatch": nm}), ("edgeMatch only", {"edgeMatch": em})):
+        bc = BatchCluster()
+        templ = []
+        got = []
+        for i in order2:
+            e, templ = bc.lib_check({"idx": i, "gml": graphs[i]}, templ, rule_key="gml", attribute_key="none", **kw)
+            got.append(e["class"])
+        ctx.count("lib_check_single_matcher_runs")
+        if not same_partition(got, [want[i] for i in order2]):
+            ctx.violation("lib_check-single-matcher", {**wit, "order": order2, "given": label},
+                          f"lib_check with {label} supplied does not classify into the isomorphism classes: {got} vs {[want[i] for i in order2]}")
     if [WG.gdigest(g) for g in graphs] != digests:
         ctx.violation("input-mutated", wit, "clustering modified an input graph")
+    ctx.count("half_order_near_misses", STEP_HALF[0])
+    STEP_HALF[0] = 0
     sizes = {}
     for c in want:
         sizes[c] = sizes.get(c, 0) + 1
